@@ -559,7 +559,7 @@ func (fr *Frame) enterLoop(order []*ssa.BasicBlock, h *ssa.BasicBlock, ins []edg
 				u.heapStoreAt(st, k, idx, c)
 				rowCells = append(rowCells, [2]string{k, c})
 				if strings.HasPrefix(k, "MD$") {
-					ks := strings.TrimPrefix(k, "MD$")
+					ks := arrayDomain(arrayRange(u.heapSort[k]))
 					u.assume(app(">=", u.card(ks, c), "0"))
 					u.assume(implies(eq(idx, "0"), eq(c, u.emptySet(ks))))
 				}
@@ -589,7 +589,7 @@ func (fr *Frame) enterLoop(order []*ssa.BasicBlock, h *ssa.BasicBlock, ins []edg
 			}
 			u.assume(fmt.Sprintf("(forall ((r!f Int)) (! (=> %s (= (select %s r!f) (select %s r!f))) :pattern ((select %s r!f))))", cond, nh, preH, nh))
 			if strings.HasPrefix(k, "MD$") {
-				ks := strings.TrimPrefix(k, "MD$")
+				ks := arrayDomain(arrayRange(u.heapSort[k]))
 				u.assume(fmt.Sprintf("(forall ((r!f Int)) (! (>= (%s (select %s r!f)) 0) :pattern ((select %s r!f))))", u.enc.declFun("card$"+ks, []string{"(Array " + ks + " Bool)"}, "Int"), nh, nh))
 			}
 		} else if key := fmt.Sprintf("%s|%d|%s", fr.fn.String(), ord, k); u.dry == 0 && strings.HasPrefix(srt, "(Array Int ") && !u.blacklist[key+"|fn"] && !strings.HasPrefix(k, "$") {
